@@ -7,6 +7,7 @@ use crate::lexicon::Lexicon;
 
 pub mod c01;
 pub mod c02;
+pub mod c03;
 pub mod c04;
 pub mod c05;
 pub mod c06;
@@ -17,6 +18,7 @@ pub mod c10;
 pub mod c11;
 pub mod c12;
 pub mod c13;
+pub mod c14;
 pub mod c15;
 pub mod c16;
 pub mod c17;
@@ -49,6 +51,7 @@ impl LangSet {
 pub fn run(ctx: &Ctx) -> Outcome {
     match ctx.prop.as_str() {
         "C01" => c01::run(ctx),
+        "C03" => c03::run(ctx),
         "C04" => c04::run(ctx),
         "C05" => c05::run(ctx),
         "C08" => c08::run(ctx),
@@ -64,6 +67,7 @@ pub fn run(ctx: &Ctx) -> Outcome {
         "C18" => c18::run(ctx),
         "C12" => c12::run(ctx),
         "C13" => c13::run(ctx),
+        "C14" => c14::run(ctx),
         other => {
             println!("ERROR unknown or unbuilt property {}", other);
             Outcome { exit_code: 2 }
@@ -75,6 +79,7 @@ pub fn run(ctx: &Ctx) -> Outcome {
 pub fn replay(ctx: &Ctx, case: &J) -> Vec<String> {
     match ctx.prop.as_str() {
         "C01" => c01::replay(case),
+        "C03" => c03::replay(case),
         "C04" => c04::replay(case),
         "C05" => c05::replay(case),
         "C08" => c08::replay(case),
@@ -90,6 +95,7 @@ pub fn replay(ctx: &Ctx, case: &J) -> Vec<String> {
         "C18" => c18::replay(case),
         "C12" => c12::replay(case),
         "C13" => c13::replay(case),
+        "C14" => c14::replay(case),
         other => vec![format!("replay not available for {}", other)],
     }
 }
@@ -99,6 +105,12 @@ pub fn worker_main(args: &[String]) -> i32 {
     crate::core::install_panic_hook();
     match args.first().map(|s| s.as_str()) {
         Some("c12") => c12::worker(&args[1..]),
+        Some("c03") => c03::worker(&args[1..]),
+        Some("c03-one") => c03::worker_one(&args[1..]),
+        Some("c03-miri") => c03::worker_miri(&args[1..]),
+        Some("c14-threads-light") => c14::worker_threads_light(&args[1..]),
+        Some("c14-threads") => c14::worker_threads(&args[1..]),
+        Some("c14-silence") => c14::worker_silence(&args[1..]),
         _ => {
             eprintln!("unknown worker {:?}", args.first());
             2
